@@ -23,6 +23,86 @@ type Case struct {
 	// Ck: bit i set = file i+1 is a checkpoint (`-- atlas:checkpoint`); 0 = none. A first run on an
 	// empty history starts at the latest checkpoint; the files before it are never executed.
 	Ck int `json:"checkpoint,omitempty"`
+	// To > 0: the reused-executor slice: one Executor runs ExecuteTo(To) and then ExecuteN(0) until
+	// nothing is pending; FailAt > 0: the FailAt-th statement execution fails once.
+	To     int `json:"to,omitempty"`
+	FailAt int `json:"fail_at,omitempty"`
+}
+
+// reuse: a program that keeps one Executor: ExecuteTo(version `to`), then ExecuteN(0) on the same value
+// until it reports nothing pending. It must behave exactly like a program that builds a fresh Executor
+// for every call (same statements in the same order, same results, same final history); without
+// checkpoints, every statement of the directory is executed, in order, successfully exactly once.
+func reuse(shape []int, ck, to, failAt int) (problems []string) {
+	bad := func(format string, a ...any) { problems = append(problems, fmt.Sprintf(format, a...)) }
+	files := map[string]string{}
+	var want []string
+	for f, n := range shape {
+		var ss []string
+		for i := 0; i < n; i++ {
+			ss = append(ss, fmt.Sprintf("S_%d_%d", f+1, i+1))
+		}
+		want = append(want, ss...)
+		files[fmt.Sprintf("%d_f.sql", f+1)] = mighelp.StmtFile(ss)
+		if ck&(1<<f) != 0 {
+			files[fmt.Sprintf("%d_f.sql", f+1)] = "-- atlas:checkpoint\n\n" + mighelp.StmtFile(ss)
+		}
+	}
+	world := func(fresh bool) (got []string, log []string, final string) {
+		dir, err := mighelp.Dir(files)
+		if err != nil {
+			return nil, []string{"harness: " + err.Error()}, ""
+		}
+		store := mighelp.NewStore()
+		calls := 0
+		drv := &mighelp.Driver{}
+		drv.OnExec = func(q string) error {
+			calls++
+			if calls == failAt {
+				return errInjected
+			}
+			got = append(got, strings.TrimSuffix(q, ";"))
+			return nil
+		}
+		defer func() {
+			if p := recover(); p != nil {
+				log = append(log, fmt.Sprintf("panic: %v", p))
+			}
+		}()
+		ex, err := migrate.NewExecutor(drv, dir, store)
+		if err != nil {
+			return nil, []string{"harness: " + err.Error()}, ""
+		}
+		err = ex.ExecuteTo(context.Background(), fmt.Sprint(to))
+		log = append(log, fmt.Sprintf("ExecuteTo(%d): %v after %d successful statements", to, err, len(got)))
+		for k := 0; k < 4; k++ {
+			if fresh {
+				if ex, err = migrate.NewExecutor(drv, dir, store); err != nil {
+					return nil, []string{"harness: " + err.Error()}, ""
+				}
+			}
+			err = ex.ExecuteN(context.Background(), 0)
+			log = append(log, fmt.Sprintf("ExecuteN: %v after %d successful statements", err, len(got)))
+			if errors.Is(err, migrate.ErrNoPendingFiles) {
+				break
+			}
+		}
+		for f := range shape {
+			if r, ok := store.Revs[fmt.Sprint(f+1)]; ok {
+				final += fmt.Sprintf("%d:%d/%d:%q ", f+1, r.Applied, r.Total, r.Error)
+			}
+		}
+		return got, log, final
+	}
+	gotR, logR, finR := world(false)
+	gotF, logF, finF := world(true)
+	if strings.Join(gotR, ",") != strings.Join(gotF, ",") || strings.Join(logR, ";") != strings.Join(logF, ";") || finR != finF {
+		bad("one executor kept over ExecuteTo(%d) and ExecuteN calls behaves unlike a fresh executor per call: kept: %v %v history %s; fresh: %v %v history %s", to, gotR, logR, finR, gotF, logF, finF)
+	}
+	if ck == 0 && strings.Join(gotR, ",") != strings.Join(want, ",") {
+		bad("one executor, ExecuteTo(%d) then ExecuteN until nothing is pending: successful executions %v, want each statement once in order %v", to, gotR, want)
+	}
+	return problems
 }
 
 type attempt struct {
@@ -308,7 +388,7 @@ func Run(r *report.Run) {
 	if r.Tier == "thorough" {
 		bound = 3
 	}
-	r.Rule = "every directory shape (1..3 files x 1..3 statements; any subset of the files being checkpoints) x every placement of <=bound faults over the choice points {ExecContext: ok/fail, WriteRevision: ok/fail-without-persist} and, in the crash alphabet, additionally {die before, die after} at both kinds of point, followed by clean re-runs; real migrate.Executor over a recording driver/store; non-trivial = execution with >=1 injected fault; distinct = (shape, checkpoint, alphabet, choice list)"
+	r.Rule = "every directory shape (1..3 files x 1..3 statements; any subset of the files being checkpoints) x every placement of <=bound faults over the choice points {ExecContext: ok/fail, WriteRevision: ok/fail-without-persist} and, in the crash alphabet, additionally {die before, die after} at both kinds of point, followed by clean re-runs; plus a reused-executor slice: one Executor value runs ExecuteTo(v) for every version v and then ExecuteN until nothing is pending, over every checkpoint subset, without a fault and with the k-th statement execution failing once, for every k: statements, results and final history equal those of a program building a fresh Executor per call, and without checkpoints every statement runs exactly once, in order; real migrate.Executor over a recording driver/store; non-trivial = execution with >=1 injected fault; distinct = (shape, checkpoint, alphabet, choice list)"
 	r.Assumptions = []string{
 		"a failed revision write persists nothing; a simulated process death freezes both stores (deferred code may run but cannot write)",
 		"statement texts are unique per directory so the recording driver can identify them",
@@ -353,7 +433,7 @@ func Run(r *report.Run) {
 			key := fmt.Sprintf("%v|%v|%v|%v", j.shape, j.ck, j.crash, cs)
 			r.Case(key, faults > 0)
 			outcomes[i][strings.Join(trace, ";")] = true
-			c := Case{j.shape, cs, j.crash, j.ck}
+			c := Case{Shape: j.shape, Choices: cs, Crash: j.crash, Ck: j.ck}
 			if len(problems) > 0 {
 				// believe a failure only if it reproduces identically.
 				for k := 0; k < 2; k++ {
@@ -370,6 +450,27 @@ func Run(r *report.Run) {
 			}
 		}, func(*explore.X) {})
 	})
+	// reused executor: every shape x every target version x {no fault, the k-th execution fails once}.
+	reused := 0
+	for _, sh := range shapes {
+		total := 0
+		for _, n := range sh {
+			total += n
+		}
+		for ck := 0; ck < 1<<len(sh); ck++ {
+			for to := 1; to <= len(sh); to++ {
+				for failAt := 0; failAt <= total; failAt++ {
+					reused++
+					c := Case{Shape: sh, Ck: ck, To: to, FailAt: failAt}
+					r.Case(fmt.Sprintf("reuse|%v|%d|%d|%d", sh, ck, to, failAt), true)
+					if problems := reuse(sh, ck, to, failAt); len(problems) > 0 {
+						r.Violate("", fmt.Sprintf("reused executor shape=%v checkpoints=%b to=%d fail_at=%d: %s", sh, ck, to, failAt, strings.Join(problems, " | ")), c)
+					}
+				}
+			}
+		}
+	}
+	r.Set("reused_executor_cases", reused)
 	var tot explore.Stats
 	nout := 0
 	for i := range stats {
@@ -396,6 +497,15 @@ func Replay(r *report.Run, raw json.RawMessage) {
 		return
 	}
 	c := v.Case
+	if c.To > 0 {
+		problems := reuse(c.Shape, c.Ck, c.To, c.FailAt)
+		r.Case(fmt.Sprint(c), true)
+		r.Case(fmt.Sprint(c)+"'", true)
+		if len(problems) > 0 {
+			r.Violate("", strings.Join(problems, " | "), c)
+		}
+		return
+	}
 	x := explore.Replay(c.Choices)
 	problems, _, trace := exec(c.Shape, c.Crash, c.Ck, x)
 	for _, t := range trace {
